@@ -118,7 +118,7 @@ def ops : List (String × Handler) := [
   ("c06.emit", fun j => do
     let ir ← irOf (← j.getObjVal? "ir")
     return Json.mkObj [
-      ("schema", toWire (emit ir)),
+      (match emit ir with | .ok s => ("schema", toWire s) | .error e => ("raises", Driver.str e)),
       ("typs", strs (ir.params.map (fun np => np.2.typ.render))),
       ("ret_typ", optStr (ir.returns.map (fun r => r.typ.render))),
       ("in_domain", .bool ir.ok),
@@ -130,7 +130,10 @@ def ops : List (String × Handler) := [
     | .error e => return Json.mkObj [("raises", Driver.str e)]),
   ("c06.roundtrip", fun j => do
     let ir ← irOf (← j.getObjVal? "ir")
-    match parse (emit ir) with
+    match emit ir with
+    | .error e => return Json.mkObj [("raises", Driver.str e)]
+    | .ok s =>
+    match parse s with
     | .ok p => return Json.mkObj [("ok", pirJson p)]
     | .error e => return Json.mkObj [("raises", Driver.str e)]),
   ("c06.valid", fun j => do
